@@ -76,7 +76,7 @@ func c05Configs(tier string) []vmc.Cfg {
 		{"same-stripe-keys", nil, [][]c05op{{put(kA, 1, "x"), get(kA2)}, {put(kA2, 1, "y"), get(kA)}, {put(kB, 1, "z")}}},
 		{"reput-restamps", []c05op{put(kA, 2, "x"), sleep(c05MaxAge / 2)}, [][]c05op{{put(kA, 2, "x"), sleep(c05MaxAge/2 + 1), get(kA)}, {get(kA)}}},
 	}
-	budget := 4
+	budget := 100
 	if tier == "thorough" {
 		budget = 100 // unbounded: every interleaving at datastore-call granularity
 	}
